@@ -30,8 +30,9 @@ def rules():
         agree.append(z3.And(kt == ft.code("kafka_type", k), ft.col("inner_base") == ft.code("inner_base", py)))
     q.exists_bad("kafka_type_matches_declared_python_type", [ft], z3.And(z3.Not(ft.col("is_entity")), z3.Or(*[kt == c for c in known]), z3.Not(z3.Or(*agree))), d)
     wire_null = z3.Or(*[kt == ft.code("kafka_type", k) for k in F.WIRE_NULL])
+    # (tagged fields are no exception: absence is expressed by omitting the tag, not by None, unless the type itself has a null)
     q.exists_bad("only_types_with_a_wire_null_are_nullable", [ft],
-                 z3.And(ft.col("nullable"), z3.Not(ft.col("is_entity")), z3.Not(ft.col("is_array")), z3.Not(wire_null), ft.col("tag") < 0), d)
+                 z3.And(ft.col("nullable"), z3.Not(ft.col("is_entity")), z3.Not(ft.col("is_array")), z3.Not(wire_null)), d)
     q.exists_bad("array_items_are_nullable_only_for_uuid", [ft], z3.And(ft.col("item_nullable"), kt != ft.code("kafka_type", "uuid")), d)
     q.exists_bad("uuid_fields_admit_None_(all_zero_is_null)", [ft], z3.And(kt == ft.code("kafka_type", "uuid"), z3.Not(ft.col("is_array")), z3.Not(ft.col("nullable"))), d)
     q.exists_bad("defaults_inhabit_the_declared_type", [ft], z3.Not(ft.col("default_inhabits")), d)
